@@ -19,14 +19,14 @@ from lib.sut import CasadiEngine, NumpyEngine, cs, np
 ID = "C12"
 RULE = (
     "history = 2..7 operations on one network object, each: NumPy step from value set A (admissible) or B (with negative entries) (all variables "
-    "supplied, or a drawn subset omitted and created by a constant-valued engine), NumPy step fed with the very "
+    "supplied, or a drawn subset omitted and created by a constant-valued engine), NumPy step from arrays the caller keeps for the whole history and overwrites in place, NumPy step fed with the very "
     "next_states objects of the previous step (simulation loop), CasADi SX/MX step with caller-created symbols "
     "(all or a subset) evaluated at A or B, or CasADi step with engine symbols + to_function; each with a drawn "
     "option subset. Non-trivial = >=3 operations, >=2 distinct value sets used and some (values, engine, options, "
     "subset) repeated. Distinct = SHA-1 of the case."
 )
-BUDGET = {"quick": {"examples": 150, "shards": 4}, "thorough": {"examples": 2000, "shards": 16}}
-EXPECTED_LABELS = ("op:numpy", "op:numpy-next", "op:SX", "op:MX", "op:compile", "partial-init", "opts", "repeat",
+BUDGET = {"quick": {"examples": 150, "shards": 4}, "thorough": {"fuzz_runs": 3000, "examples": 2000, "shards": 16}}
+EXPECTED_LABELS = ("op:numpy", "op:numpy-persist", "op:numpy-next", "op:SX", "op:MX", "op:compile", "partial-init", "opts", "repeat",
                    "numpy-after-casadi", "interior-ramp", "merge", "vsl:some", "origin:main")
 ASSUMPTIONS = ["fresh twin = same spec built anew; NumPy results compared bit-for-bit, CasADi numeric results to 1e-13 relative",
                "engine-created NumPy variables use the constant initialiser so that they are deterministic"]
@@ -42,7 +42,7 @@ def cases(draw):
     ops = []
     n = draw(st.integers(2, 7))
     for _ in range(n):
-        kind = draw(st.sampled_from(["numpy", "numpy", "numpy-next", "SX", "MX", "compile"]))
+        kind = draw(st.sampled_from(["numpy", "numpy", "numpy-next", "numpy-persist", "SX", "MX", "compile"]))
         op = {"kind": kind, "vals": draw(st.integers(0, 1)),
               "opts": draw(st.one_of(st.just([]), st.lists(st.sampled_from(S.OPT_NAMES), unique=True, max_size=3).map(sorted)))}
         if kind in ("numpy", "SX", "MX") and draw(st.integers(0, 2)) == 0 and keys:
@@ -110,7 +110,7 @@ class Supplied:
                     ctx.fail(f"{what}:supplied-symbol:{var}", f"{what}: the symbol supplied as {var} of {el.name} was modified: now {obj}")
 
 
-def run_op(ctx, sp, op, values, bundle, prev_next, shared):
+def run_op(ctx, sp, op, values, bundle, prev_next, shared, persist=None):
     """Executes op on the network bundle; returns (numeric next or None, Supplied)."""
     net, els, _ = bundle
     pars = S.pars_kwargs(sp)
@@ -120,8 +120,19 @@ def run_op(ctx, sp, op, values, bundle, prev_next, shared):
     sup = Supplied()
     kind = op["kind"]
     tag = f"{kind}{'-shared' if shared else '-fresh'}"
-    if kind in ("numpy", "numpy-next"):
-        if kind == "numpy-next":
+    if kind in ("numpy", "numpy-next", "numpy-persist"):
+        if kind == "numpy-persist":
+            # the caller keeps one set of arrays for the whole history and overwrites them in place
+            store = persist if shared else {}
+            for i, s in state.items():
+                for var, vals in s.items():
+                    arr = store.get((i, var))
+                    if arr is None:
+                        arr = store[(i, var)] = np.array(vals, dtype=float)
+                    else:
+                        arr[...] = np.array(vals, dtype=float)
+                    sup.add_array(els[i], var, arr)
+        elif kind == "numpy-next":
             if prev_next is None:
                 return None, sup
             for i, el in els.items():
@@ -218,6 +229,7 @@ def check_case(case, ctx):
         return
     params0 = snap_params(shared[1])
     prev_shared = None
+    persist = {}
     seen_ops, used_vals, repeated = [], set(), False
     last_kind = None
     for k, op in enumerate(ops):
@@ -236,7 +248,7 @@ def check_case(case, ctx):
         used_vals.add(op["vals"])
         prev_vals = None if prev_shared is None else {i: {v: a.copy() for v, a in vs.items()} for i, vs in prev_shared.items()}
         usable_prev = prev_vals is not None and all(np.all(np.isfinite(a)) for vs in prev_vals.values() for a in vs.values())
-        got, sup = run_op(ctx, sp, op, values, shared, prev_vals if usable_prev else None, True)
+        got, sup = run_op(ctx, sp, op, values, shared, prev_vals if usable_prev else None, True, persist)
         what = f"op{k}:{op['kind']}"
         sup.verify(ctx, op["kind"])
         p1 = snap_params(shared[1])
